@@ -114,7 +114,9 @@ impl World {
             "actor": enc::actor_num(d.get_actor()),
         });
         if self.obs_level == ObsLevel::View {
-            o["view"] = proj::view(d, None);
+            let v = proj::view(d, None);
+            o["vd"] = json!(chg::digest(v.to_string().as_bytes()));
+            o["view"] = v;
         }
         o
     }
